@@ -990,13 +990,18 @@ class ReadParquetPyarrowFS(ReadParquet):
 
         dataset_info["dataset"] = dataset
         dataset_info["schema"] = dataset.schema
-        meta = dataset.schema.empty_table().to_pandas()
+        empty_table = dataset.schema.empty_table()
         # The column of the files that holds the index: to_parquet stores an
         # unnamed index as NONE_LABEL
-        dataset_info["index_name"] = meta.index.name
-        if meta.index.name == NONE_LABEL:
-            meta.index.name = None
-        dataset_info["base_meta"] = meta
+        dataset_info["index_name"] = empty_table.to_pandas().index.name
+        # Convert like the tasks do (types_mapper, dtype_backend, strings)
+        dataset_info["base_meta"] = self._table_to_pandas(
+            empty_table,
+            dataset_info["index_name"],
+            self.arrow_to_pandas,
+            (self.kwargs or {}).get("dtype_backend"),
+            self.pyarrow_strings_enabled,
+        )
         self.operands[
             type(self)._parameters.index("_dataset_info_cache")
         ] = dataset_info
@@ -1173,8 +1178,8 @@ class ReadParquetPyarrowFS(ReadParquet):
                 dtype_backend=dtype_backend,
                 pyarrow_strings_enabled=pyarrow_strings_enabled,
             ),
-            use_threads=arrow_to_pandas.get("use_threads", False),
-            self_destruct=arrow_to_pandas.get("self_destruct", True),
+            use_threads=arrow_to_pandas.pop("use_threads", False),
+            self_destruct=arrow_to_pandas.pop("self_destruct", True),
             **arrow_to_pandas,
             ignore_metadata=True,
         )
